@@ -135,13 +135,61 @@ def r7_2(ctx):
             cur = m.parent_of.get(cur)
         return out
 
-    lefts = [y for y in walk_local(f.node) if isinstance(y, ast.Yield) and y.value is not None and norm(y.value) == "left"]
-    rights = [y for y in walk_local(f.node) if isinstance(y, ast.Yield) and y.value is not None and norm(y.value) == "right"]
-    divs = [y for y in walk_local(f.node) if isinstance(y, ast.Yield) and y.value is not None and norm(y.value) == "divider"]
-    ok = len(lefts) == 1 and len(rights) == 1 and set(guards(lefts[0])) == {"show_edge", "_box"} and set(guards(rights[0])) == {"show_edge", "_box"}
-    ctx.check(ok, f.fq, "if show_edge: yield left / right", f.where, "one left and one right edge per line under box and show_edge", "edge segments are not emitted exactly once each per line under `_box and show_edge`")
-    ok = len(divs) == 1 and set(guards(divs[0])) == {"not last_cell", "_box"}
-    ctx.check(ok, f.fq, "if not last_cell: yield divider", f.where, "one divider between adjacent cells under box", "column dividers are not emitted exactly between adjacent cells under `_box`")
+    # per-line loops: `for .. in range(<height>)` whose body yields the cells of the row and ends the line.  In each of them, under
+    # `_box and show_edge` exactly one left and one right edge are yielded, without them none; under `_box` exactly one divider is
+    # yielded inside the loop over the cells, guarded so that it falls between adjacent cells (not last / index > 0), without a box none
+    line_loops = []
+    for lp in walk_local(f.node):
+        if isinstance(lp, ast.For) and isinstance(lp.iter, ast.Call) and norm(lp.iter.func) == "range":
+            ys = [y for b_ in lp.body for y in ast.walk(b_) if isinstance(y, (ast.Yield, ast.YieldFrom))]
+            if any(isinstance(y, ast.YieldFrom) and isinstance(y.value, ast.Subscript) for y in ys) and any(isinstance(y, ast.Yield) and y.value is not None and norm(y.value) == "new_line" for y in ys):
+                line_loops.append(lp)
+    if not line_loops:
+        raise AnalysisError("Table._render: the per-line loops that emit the cells of a row were not found")
+
+    def canon(gs):
+        out = set()
+        for g_ in gs:
+            for part in g_.split(" and "):
+                out.add(part.strip().strip("()"))
+        return out
+    for lp in line_loops:
+        gl = canon(guards(lp))
+        box = "_box" in gl
+        edge = box and "show_edge" in gl
+        inner = [y for b_ in lp.body for y in ast.walk(b_) if isinstance(y, ast.Yield) and y.value is not None]
+        n_left = sum(1 for y in inner if norm(y.value) == "left")
+        n_right = sum(1 for y in inner if norm(y.value) == "right")
+        dvs = [y for y in inner if norm(y.value) == "divider"]
+        where = f"{m.relpath}:{lp.lineno}"
+        undecided_edge = box and "show_edge" not in gl and "not show_edge" not in gl
+        if undecided_edge:
+            # the loop serves both cases: the edge yields carry the show_edge test themselves
+            el = [y for y in inner if norm(y.value) in ("left", "right")]
+            oke = n_left == 1 and n_right == 1 and all("show_edge" in canon(guards(y)) for y in el)
+            ctx.check(oke, f.fq, "if show_edge: yield left / right", where, "one left and one right edge per line, each under show_edge",
+                      f"the line loop at line {lp.lineno} (under `_box`) does not yield exactly one left and one right edge under `show_edge` (found {n_left} / {n_right}): the lines are not as wide as _extra_width accounts for")
+            want = None
+        else:
+            want = 1 if edge else 0
+        if want is not None:
+          ctx.check(n_left == want and n_right == want, f.fq, f"line loop under {sorted(gl & {'_box', 'show_edge', 'not show_edge', 'not _box'})}", where,
+                    f"{want} left and {want} right edge per line {'under box and show_edge' if edge else 'without box / show_edge'}",
+                    f"the line loop at line {lp.lineno} runs {'under' if edge else 'without'} `_box and show_edge` but yields {n_left} left and {n_right} right edge segment(s) per line: the lines are not as wide as _extra_width accounts for")
+        wantd = 1 if box else 0
+        okd = len(dvs) == wantd
+        if okd and box:
+            local = canon(g_ for g_ in guards(dvs[0]) if g_ not in guards(lp))
+            local -= {"divider is not None"}
+            cell_loops = [x for b_ in lp.body for x in ast.walk(b_) if isinstance(x, ast.For) and any(y is dvs[0] for y in ast.walk(x))]
+            adj = False
+            if len(cell_loops) == 1 and isinstance(cell_loops[0].target, ast.Tuple) and len(cell_loops[0].target.elts) == 2:
+                first_t = norm(cell_loops[0].target.elts[0])
+                itf = norm(cell_loops[0].iter.func) if isinstance(cell_loops[0].iter, ast.Call) else ""
+                adj = (itf == "loop_last" and local == {f"not {first_t}"}) or (itf == "loop_first" and local == {f"not {first_t}"}) or (itf == "enumerate" and local in ({first_t}, {f"{first_t} > 0"}, {f"{first_t} != 0"}, {f"{first_t} >= 1"}))
+            okd = adj
+        ctx.check(okd, f.fq, "divider between adjacent cells", where, f"{wantd} divider between adjacent cells {'under box' if box else 'without box'}",
+                  f"the line loop at line {lp.lineno} {'under' if box else 'without'} `_box` does not yield exactly one divider between adjacent cells (found {len(dvs)}): column dividers are missing, doubled or emitted at a row's end")
     ctx.shape("left, right, _divider = box_segments[" in norm(f.node), f.fq, "box_segments", f.where, "edge/divider segments come from the box", "edge and divider segments are not taken from box_segments")
     ctx.check(any(isinstance(n, ast.Assign) and norm(n.targets[0]) == "show_edge" and norm(n.value) == "self.show_edge" for n in walk_local(f.node)), f.fq, "show_edge = self.show_edge", f.where, "emission uses the same show_edge flag", "show_edge in _render is not self.show_edge")
     for cl in walk_local(f.node):
@@ -478,13 +526,22 @@ def r7_16(ctx):
     from ..yieldpaths import Enumerator, Unsupported, resolve, canon_test
     f = ctx.repo.fn("_ratio:ratio_distribute")
     m = f.module
-    loops = [x for x in walk_local(f.node) if isinstance(x, ast.For) and isinstance(x.target, ast.Tuple) and len(x.target.elts) == 2 and isinstance(x.iter, ast.Call) and norm(x.iter.func) == "zip"]
+    def zip_loops(fn_):
+        return [x for x in walk_local(fn_.node) if isinstance(x, ast.For) and isinstance(x.target, ast.Tuple) and len(x.target.elts) == 2 and isinstance(x.iter, ast.Call) and norm(x.iter.func) == "zip"]
+    host = f
+    loops = zip_loops(f)
+    if not loops:
+        # the accumulation moved into a generator the function drains (`return list(_iter_distributed(..))`)
+        for c in walk_local(f.node):
+            if isinstance(c, ast.Call) and isinstance(c.func, ast.Name) and c.func.id in m.functions and m.functions[c.func.id] is not f and zip_loops(m.functions[c.func.id]):
+                host = m.functions[c.func.id]
+                loops = zip_loops(host)
     if len(loops) != 1:
         raise AnalysisError("ratio_distribute: the loop over zip(ratios, minimums) was not found")
     lp = loops[0]
     mn = norm(lp.target.elts[1])
     try:
-        bodies = Enumerator(f.node).block(lp.body)
+        bodies = Enumerator(host.node).block(lp.body)
     except Unsupported as u:
         raise AnalysisError(f"ratio_distribute: {u}")
     n = 0
@@ -498,13 +555,16 @@ def r7_16(ctx):
         if facts.get("total_ratio>0") is not True and facts.get("total_ratio<=0") is not False:
             continue
         for e in ev:
-            if e[0] != "do" or ".append(" not in e[1]:
-                continue
-            c = ast.parse(e[1], mode="eval").body
-            if not (isinstance(c, ast.Call) and len(c.args) == 1):
+            if e[0] == "yield" and host is not f:
+                v = ast.parse(e[1], mode="eval").body
+            elif e[0] == "do" and ".append(" in e[1]:
+                c = ast.parse(e[1], mode="eval").body
+                if not (isinstance(c, ast.Call) and len(c.args) == 1):
+                    continue
+                v = c.args[0]
+            else:
                 continue
             n += 1
-            v = c.args[0]
             vt = norm(v).replace(" ", "")
             ok = (isinstance(v, ast.Call) and norm(v.func) == "max" and any(norm(a) == mn for a in v.args)) or norm(v) == mn
             ok = ok or facts.get(f"{vt}<{mn}") is False or facts.get(f"{vt}>={mn}") is True or facts.get(f"{mn}>{vt}") is False or facts.get(f"{mn}<={vt}") is True
